@@ -35,7 +35,7 @@ PROPS = {
     "C12": {
         "title": "Grouping keeps every change once, in order, with exactly n items of context",
         "module": "SimilarVerif.Props.C12",
-        "suites": ["group"],
+        "suites": ["group", "text"],
         "rule": "group: all alternating op lists with <= 2 (thorough 3) changes of the three kinds, equal-run lengths 1..2n+2, optional leading/trailing equal run, n <= 2 (thorough 4), plus random lists with run lengths around the 2n threshold; non-trivial = at least two groups",
         "theorem_status": "full: changes kept once in order, contiguity, no all-equal group, context = min(n, available) from the adjacent end, interior runs whole and <= 2n, separation iff > 2n",
         "level_text": "Lean theorems about the model of group_diff_ops for all op lists and radii; model compared with the code exhaustively on a small scope; direct re-statement validator on the implementation.",
